@@ -148,13 +148,59 @@ func DefaultModels() map[string]Model {
 		}
 		return types.NewPointer(types.Typ[types.Int])
 	}
-	m["math/big.NewInt"] = func(x *Exec, fr *Frame, st *State, args []Value, pos token.Pos) []Outcome {
-		return retOne(st, Value{T: bigT(x), L: []*Term{x.newRef(st, "bigint")}})
+	// the numeric value of a big.Int is tracked as a 128-bit ghost (values beyond 2^128 are not modelled:
+	// such results are unconstrained)
+	beVal := func(x *Exec, st *State, b Value) *Term {
+		p := sl(b)
+		arr := Select(x.comp(st, "arr:uint8", types.Typ[types.Uint8], 0), p.base)
+		v := BVLit64(0, 128)
+		for k := int64(0); k < 16; k++ {
+			byteK := ZeroExt(Select(arr, BVBin("bvadd", p.off, BVLit64(k, 64))), 128)
+			v = Ite(BVCmp("bvult", BVLit64(k, 64), p.ln), BVBin("bvor", BVBin("bvshl", v, BVLit64(8, 128)), byteK), v)
+		}
+		return v
 	}
-	for _, meth := range []string{"Add", "Sub", "Mul", "Div", "Mod", "Quo", "Rem", "Set", "SetBytes", "SetUint64", "SetInt64", "Lsh", "Rsh", "Exp", "Neg", "Abs", "And", "Or"} {
+	m["math/big.NewInt"] = func(x *Exec, fr *Frame, st *State, args []Value, pos token.Pos) []Outcome {
+		r := x.newRef(st, "bigint")
+		x.setGhost(st, "bigval:"+r.String(), x.define(st, "bigval", SignExt(args[0].L[0], 128)))
+		return retOne(st, Value{T: bigT(x), L: []*Term{r}})
+	}
+	m["(*math/big.Int).SetBytes"] = func(x *Exec, fr *Frame, st *State, args []Value, pos token.Pos) []Outcome {
+		x.oblige(fr, st, "nil", x.src(fr.fn, pos, "bigint")+"(recv)", pos, Not(Eq(args[0].L[0], IntLit(0))))
+		v := Ite(BVCmp("bvule", sl(args[1]).ln, BVLit64(16, 64)), beVal(x, st, args[1]), x.c.Fresh("bigval_wide", SBV(128)))
+		x.setGhost(st, "bigval:"+args[0].L[0].String(), x.define(st, "bigval", v))
+		x.c.note("assumed: big.Int.SetBytes interprets its argument as a big-endian unsigned integer (values up to 128 bits tracked)")
+		return retOne(st, args[0])
+	}
+	m["(*math/big.Int).SetString"] = func(x *Exec, fr *Frame, st *State, args []Value, pos token.Pos) []Outcome {
+		x.oblige(fr, st, "nil", x.src(fr.fn, pos, "bigint")+"(recv)", pos, Not(Eq(args[0].L[0], IntLit(0))))
+		ok := x.c.Fresh("setstring_ok", SBool)
+		x.havocReachable(st, args[0])
+		x.setGhost(st, "bigval:"+args[0].L[0].String(), x.c.Fresh("bigval", SBV(128)))
+		x.c.note("assumed: big.Int.SetString returns its receiver and true, or nil and false")
+		return []Outcome{{St: st, Kind: OutReturn, Rets: []Value{{T: args[0].T, L: []*Term{Ite(ok, args[0].L[0], IntLit(0))}}, boolV(ok)}}}
+	}
+	m["(*math/big.Int).Bytes"] = func(x *Exec, fr *Frame, st *State, args []Value, pos token.Pos) []Outcome {
+		x.oblige(fr, st, "nil", x.src(fr.fn, pos, "bigint")+"(recv)", pos, Not(Eq(args[0].L[0], IntLit(0))))
+		val := x.ghostGet(st, "bigval:"+args[0].L[0].String())
+		byteT := types.Typ[types.Uint8]
+		n := x.c.Fresh("bigbytes_len", idxSort)
+		out := x.newSlice(st, types.NewSlice(byteT), byteT, n, n, "bigbytes")
+		content := x.c.Fresh("bigbytes", SArr(idxSort, SBV(8)))
+		c := x.comp(st, "arr:uint8", byteT, 0)
+		x.setComp(st, "arr:uint8", byteT, 0, Store(c, out.L[0], content))
+		// minimal big-endian representation of the (128-bit tracked) value
+		st.assume(BVCmp("bvule", n, BVLit64(16, 64)))
+		st.assume(Eq(beVal(x, st, out), val))
+		st.assume(Implies(Not(Eq(n, BVLit64(0, 64))), Not(Eq(Select(content, BVLit64(0, 64)), BVLit64(0, 8)))))
+		x.c.note("assumed: big.Int.Bytes returns the minimal big-endian bytes of the value (non-negative values below 2^128)")
+		return retOne(st, out)
+	}
+	for _, meth := range []string{"Add", "Sub", "Mul", "Div", "Mod", "Quo", "Rem", "Set", "SetUint64", "SetInt64", "Lsh", "Rsh", "Exp", "Neg", "Abs", "And", "Or"} {
 		m["(*math/big.Int)."+meth] = func(x *Exec, fr *Frame, st *State, args []Value, pos token.Pos) []Outcome {
 			x.oblige(fr, st, "nil", x.src(fr.fn, pos, "bigint")+"(recv)", pos, Not(Eq(args[0].L[0], IntLit(0))))
 			x.havocReachable(st, args[0])
+			x.setGhost(st, "bigval:"+args[0].L[0].String(), x.c.Fresh("bigval", SBV(128)))
 			x.c.note("assumed: math/big.Int arithmetic methods write only their receiver and return it; numeric values not modelled")
 			return retOne(st, args[0])
 		}
@@ -359,6 +405,8 @@ func (x *Exec) ghostInit(key string) *Term {
 			x.extraAxioms = append(x.extraAxioms, BVCmp("bvule", t, BVLit64(1<<32, 64)), Eq(BVBin("bvand", t, BVLit64(65535, 64)), BVLit64(0, 64)))
 		}
 		return t
+	case strings.HasPrefix(key, "bigval:"):
+		return x.c.Named("G0_"+key, SBV(128))
 	case strings.HasPrefix(key, "memwords:"):
 		return x.c.Named("G0_"+key, SArr(SBV(32), SBV(64)))
 	}
@@ -419,6 +467,22 @@ func registerSpecBuiltins(x *Exec) {
 			unsup("spec: lastarg: no recorded call to %s on this path", lit.Text)
 		}
 		return as[i]
+	}
+	// bigval_hi(p) / bigval_lo(p): upper / lower 64 bits of the tracked value of the *big.Int p
+	for _, half := range []string{"hi", "lo"} {
+		half := half
+		x.specBuiltins["bigval_"+half] = func(sc *specScope, n *ECall) Value {
+			p := x.evalSpec0(sc, n.Args[0], nil)
+			ref := p.L[0]
+			if _, isI := p.T.Underlying().(*types.Interface); isI {
+				ref = p.L[1]
+			}
+			v := x.ghostGet(sc.st, "bigval:"+ref.String())
+			if half == "hi" {
+				return scalar(types.Typ[types.Uint64], Extract(127, 64, v))
+			}
+			return scalar(types.Typ[types.Uint64], Extract(63, 0, v))
+		}
 	}
 	// memsize(mem), memword(mem, off): ghost state of a runtime.Memory value
 	x.specBuiltins["memsize"] = func(sc *specScope, n *ECall) Value {
@@ -526,10 +590,7 @@ func registerSpecBuiltins(x *Exec) {
 		if !ok {
 			unsup("spec: dyn needs a type name string")
 		}
-		T := x.basicType(lit.Text)
-		if T == nil {
-			T = x.lookupType(lit.Text)
-		}
+		T := x.specType(sc, lit.Text)
 		if T == nil {
 			unsup("spec: dyn: unknown type %s", lit.Text)
 		}
